@@ -32,8 +32,14 @@ class ContractBroken(AssertionError):
 def _counting(tag, fn):
     @functools.wraps(fn)
     def wrapper(*a, **k):
+        import sys
         EVALS[tag] += 1
-        return fn(*a, **k)
+        old = sys.get_int_max_str_digits()
+        sys.set_int_max_str_digits(0)      # the oracle may convert freely; only the library runs under the trap
+        try:
+            return fn(*a, **k)
+        finally:
+            sys.set_int_max_str_digits(old)
     return wrapper
 
 
